@@ -7,8 +7,21 @@ Events   : the tableaux held by the live objects returned by RungeKutta / FixedR
 Oracles  : rktrees   - all rooted-tree order conditions in 40-digit mpmath (M1)
            executable model - one RK step in numpy.longdouble with the same tableau (M2)
            exactflows - closed forms / SciPy DOP853 at 1e-13 (M3, M4);  cr3bp.flow for System.propagate (M5)
-M1 invariant on the loaded tableaux; M2 faithful stepping; M3 empirical order; M4 adaptive accuracy and dense
-output; M5 System.propagate on the CR3BP.
+M1 invariant on the loaded tableaux: row sums, every rooted-tree condition up to the requested order, embedded weights
+   (RK45 E: order 4; DOP853 E5/E3: orders 5/3), continuous extensions (RK45 P: order 4; DOP853 D: order 7) at 7 thetas.
+M2 faithful stepping: fixed-step kernels (generic, Hamiltonian twin, centre-manifold copy _integrate_rk_ham) and the
+   single-step kernels of RK45/DOP853 on random smooth time-dependent fields against the longdouble model.
+M3 empirical order: 13 generic families + random polynomial Hamiltonians (Hamiltonian kernel and centre-manifold copy);
+   a family's rate is the mean of its two finest rates inside the conclusive window, provided they agree to 0.35.
+M4 adaptive accuracy on five output grids (coarse, comparable to / 50x finer than the step sequence, non-uniform with
+   near-duplicates, end point only):  error <= K tol kappa scale sqrt(D/n) + 10 ref_accuracy [+ 10 x yardstick on
+   interpolated times], kappa = max_{s<=t} ||Phi(t) Phi(s)^-1||, D/n = dilution of the controller's RMS norm by the
+   constant components, yardstick = dense-output error of SciPy's implementation of the same published method at the
+   same tolerances (the continuous extension is outside the step-size control: 1e2..1e3 x tol for both codes).
+M5 System.propagate(method='fixed'|'adaptive', order=...) on CR3BP orbits against the sympy/SciPy reference flow.
+
+Known finding F2 (mechanism "rk6-tableau-is-order-5"): the scheme requested as order 6 carried the Dormand-Prince
+5(4) tableau; recognised by `classify_tableau` (orders <= 5 hold, order 6 fails) and `classify_rate` (rate ~ 5).
 """
 from __future__ import annotations
 
@@ -20,14 +33,14 @@ from ..oracles import rktrees as rt
 
 LD = np.longdouble
 MECH_RK6 = "rk6-tableau-is-order-5"
+MECH_DOP_H = "dop853-error-norm-has-extra-factor-h"
 
 TOL_TABLE = 1e-13          # residual of a satisfied order condition on float64 entries (measured <= 8.4e-16)
 TOL_STEP = 1e-13           # relative agreement of a library step with the longdouble model (measured ~1e-15)
 WINDOW_HI = 1e-3           # conclusive window of M3
 WINDOW_LO = {4: 1e-11, 6: 1e-11, 8: 1e-12}   # p=8: few steps => round-off far below; closed forms accurate to 1e-13
 K_ADAPTIVE = 200.0         # error <= K * tol * kappa * scale (+ reference accuracy)
-SHRINK_PAIR = 4.0          # error(tol/100) <= error(tol)/4   (or already at the dense-output yardstick); measured >= 20
-SHRINK_SPAN = 32.0         # error(tol/1e4) <= error(tol)/32  (idem); measured >= 340
+SHRINK_SLOPE = 0.3         # d log(error) / d log(tol) over >= 4 decades of tolerance (asymptotically 0.8-0.9)
 K_NODE = 100.0             # same at a step node (no interpolation): measured ratios <= 5
 DENSE_ALLOW = 10.0         # allowance for the continuous extension: 10 x SciPy's same-method dense error
 
@@ -570,6 +583,16 @@ def convergence(run, ref_at, T, t0, rate, p, lo, scale):
     return ms[:len(errs)], errs, rates, fam
 
 
+def _reaches_window(ctx, tag, p, problem, T, rate, ms, errs):
+    """Gross loss of order: with the finest step used (h*rate <= 0.06) a scheme of order >= 4 is far below the top of
+    the conclusive window (measured <= 1e-9); a first-order scheme (swapped weights, dropped c_i*h) never enters it."""
+    h_rate = T / (NCHK * ms[-1]) * rate
+    ctx.stat("M3 error at the finest step used", errs[-1])
+    ctx.check(errs[-1] <= WINDOW_HI, "M3:error at the finest step lies below the top of the conclusive window (1e-3)",
+              lambda: {"scheme": tag, "requested_order": p, "problem": problem, "steps": [NCHK * m for m in ms],
+                       "errors": errs, "finest_h_times_rate": h_rate})
+
+
 def _judge_scheme(ctx, tag, p, fam_rates, min_fams):
     """fam_rates: {family label: median conclusive rate}."""
     vals = np.array(list(fam_rates.values()), dtype=float)
@@ -620,9 +643,9 @@ def new_ham(ctx, env):
 
 
 def m3_order(ctx, env, probs, hams):
-    """Empirical order.  A family whose finite-window estimate falls below p - 0.7 gets a second opinion on a fresh
-    random instance of the same family (a dip of the leading error term is instance specific, a loss of order is not);
-    the better of the two estimates is the family's rate."""
+    """Empirical order.  A family whose finite-window estimate falls below p - 0.5 gets up to two further opinions on
+    fresh random instances of the same family (a dip of the leading error term is instance specific, a loss of order is
+    not); the best estimate is the family's rate."""
     from hiten.algorithms.integrators.rk import FixedRK, RungeKutta
     for p in (4, 6, 8):
         fam_rates = {}
@@ -630,7 +653,10 @@ def m3_order(ctx, env, probs, hams):
             factory = RungeKutta if P.code % 2 else FixedRK
             ms, errs, rates, fam = _generic_table(env, P, p, factory)
             ctx.case(f"M3:fixed{p}:generic", [P.key(), ms], nontrivial=fam is not None)
-            if fam is not None and fam < p - 0.7:
+            _reaches_window(ctx, f"fixed{p} generic", p, P.describe(), P.T, P.rate, ms, errs)
+            for _ in range(2):
+                if fam is None or fam >= p - 0.5:
+                    break
                 P2 = P.sibling(ctx.rng)
                 ms2, errs2, rates2, fam2 = _generic_table(env, P2, p, factory)
                 ctx.case(f"M3:fixed{p}:generic", [P2.key(), ms2], nontrivial=fam2 is not None)
@@ -653,7 +679,10 @@ def m3_order(ctx, env, probs, hams):
             for i, (HP, hs_sys) in enumerate(hams):
                 ms, errs, rates, fam = _ham_table(HP, hs_sys, p, path)
                 ctx.case(f"M3:fixed{p}:{path}", [HP.key(), ms], nontrivial=fam is not None)
-                if fam is not None and fam < p - 0.7:
+                _reaches_window(ctx, f"fixed{p} {path}", p, HP.describe(), HP.T, HP.rate, ms, errs)
+                for _ in range(2):
+                    if fam is None or fam >= p - 0.5:
+                        break
                     HP2, hs2 = new_ham(ctx, env)
                     _, _, _, fam2 = _ham_table(HP2, hs2, p, path)
                     ctx.count("M3:second opinion on a sibling instance")
@@ -734,6 +763,12 @@ def m4_adaptive(ctx, env, probs, hams, tols):
         scale = 1.0 + float(np.max(np.abs(P.exact(tref))))
         for order in (5, 8):
             fine_err, nsteps, yard = {}, {}, {}
+            if order == 8 and not is_ham and P.n == 1 and P.code == ef.FORCED:
+                # guard: on the scalar forced problem (quadrature dominated, one component, steps of h*nu ~ 1-3) the
+                # DOP853 error estimator is blind: SciPy's implementation misses the tolerance by > 200x in 5 % and
+                # hiten's in 9 % of 120 runs (max 4e3 / 4e3); no other family exceeds 25x (hiten) / 140x (SciPy)
+                ctx.skip("M4: DOP853 on the scalar forced problem is outside the method's reliable regime")
+                continue
             for tol in tols:
                 nst, e_yard = _yardstick(P, order, tol)
                 nsteps[tol], yard[tol] = nst, e_yard
@@ -773,32 +808,102 @@ def m4_adaptive(ctx, env, probs, hams, tols):
                     ctx.stat(f"M4 error/bound [grid {gname}]", e / bound)
                     if dense and e_yard > 0:
                         ctx.stat(f"M4 error/(SciPy same-method dense error) [adaptive{order}]", max(0.0, e - 10 * acc) / e_yard)
-                    ctx.check(e <= bound, "M4:error at every requested time <= K*tol*kappa (dense output included)",
+                    neighbours = []
+                    if e > bound:
+                        # embedded estimators are occasionally blind on a single step (SciPy's too); such a miss is gone
+                        # at a neighbouring tolerance, a defect of the stepping or of the continuous extension is not
+                        for fac in (0.5, 2.0):
+                            s2 = AdaptiveRK(order=order, rtol=tol * fac, atol=tol * fac).integrate(sysm, y0.copy(), tg.copy())
+                            e2 = float(np.max(np.abs(np.asarray(s2.states)[:, :n] - ref)))
+                            neighbours.append(e2 / (bound * max(fac, 1.0)))
+                        ctx.count("M4:bound exceeded, neighbouring tolerances consulted")
+                    ctx.check(e <= bound or min(neighbours) <= 1.0,
+                              "M4:error at every requested time <= K*tol*kappa (dense output included)",
                               lambda: wit({"max_error": e, "bound": bound, "t_worst": tg[int(np.argmax(errt))],
-                                           "ratio_to_tol_kappa": ratio, "scipy_same_method_dense_error": e_yard}))
+                                           "ratio_to_tol_kappa": ratio, "scipy_same_method_dense_error": e_yard,
+                                           "error_over_bound_at_half_and_double_tol": neighbours}))
                     if gname == "fine":
                         fine_err[tol] = e
-            # error shrinks with the tolerance (sup over the fine grid): a factor 100 in tol buys >= 4 (asymptotically
-            # >= 40), a factor 1e4 buys >= 32 - or the error is already what the method's continuous extension delivers
-            # (SciPy's DOP853 itself gains only 11x from 1e-10 to 1e-12 on the forced scalar problem: 44 long steps).
+            # error shrinks with the tolerance: least-squares slope of log(sup error on the fine grid) against log(tol)
+            # over all tolerances above the reference floor.  Asymptotically the slope is (q+1)/(p+1) ~ 0.8-0.9; single
+            # long steps make the sup of a dense output jump by a factor ~10 either way (measured: one DOP853 run at
+            # 1e-11 as inaccurate as at 1e-9, SciPy's own DOP853 gaining 11x from 1e-10 to 1e-12), so the clause asks
+            # for slope >= SHRINK_SLOPE over a span of at least 1e4 - or an error already at the dense-output yardstick.
             floor = max(1e-13 * scale, 30 * acc)
-            for tol in tols:
-                for span, need, clause in ((100.0, SHRINK_PAIR, "M4:error(tol/100) <= max(error(tol)/4, dense-output yardstick)"),
-                                           (1e4, SHRINK_SPAN, "M4:error(tol/1e4) <= max(error(tol)/32, dense-output yardstick)")):
-                    t2 = min(tols, key=lambda x: abs(np.log(x / (tol / span))))
-                    if abs(np.log(t2 / (tol / span))) > 1e-6 or tol not in fine_err or t2 not in fine_err:
-                        continue
-                    e1, e2 = fine_err[tol], fine_err[t2]
-                    if e2 <= floor:
-                        ctx.skip("M4 shrink clause: error already at the reference floor")
-                        continue
-                    allow = max(e1 / need, DENSE_ALLOW * yard[t2])
-                    ctx.stat(f"M4 shrink margin: error(tol/{span:.0e}) / allowed", e2 / allow if allow > 0 else np.inf)
-                    ctx.stat(f"M4 error(tol/{span:.0e})/error(tol)", e2 / e1 if e1 > 0 else np.inf)
-                    ctx.check(e2 <= allow, clause,
-                              {"problem": P.describe(), "order": order, "tol": tol, "error_tol": e1, "error_at_smaller_tol": e2,
-                               "smaller_tol": t2, "steps_at_tol": nsteps[tol], "floor": floor,
-                               "scipy_same_method_dense_error_at_smaller_tol": yard[t2]})
+            pts = [(tol, fine_err[tol]) for tol in tols if tol in fine_err and fine_err[tol] > floor]
+            if len(pts) >= 3 and pts[0][0] / pts[-1][0] >= 1e4 * (1 - 1e-9):
+                lx, ly = np.log([q[0] for q in pts]), np.log([q[1] for q in pts])
+                slope = float(np.polyfit(lx, ly, 1)[0])
+                tmin, emin = pts[-1]
+                ctx.stat("M4 shortfall of the error-vs-tolerance slope below 0.8", 0.8 - slope)
+                ctx.check(slope >= SHRINK_SLOPE or emin <= DENSE_ALLOW * yard[tmin],
+                          "M4:error shrinks with the tolerance (log-log slope >= 0.3 over >= 4 decades)",
+                          {"problem": P.describe(), "order": order, "tolerances": [q[0] for q in pts], "sup_errors": [q[1] for q in pts],
+                           "slope": slope, "floor": floor, "scipy_same_method_dense_error_at_tightest": yard[tmin]})
+            else:
+                ctx.skip("M4 shrink clause: fewer than three tolerances above the reference floor")
+
+
+# ======================================================================================= M4b time-unit invariance
+def classify_timescale(order, c, ratio_scaled, ratio_base, rk45_scaled, rk45_base):
+    """The DOP853 drivers multiply an error estimate that already carries one factor h by |h| once more, so a step is
+    accepted when h * err <= 1: the same problem written in a c-times faster time unit (steps c times shorter) is
+    integrated ~c^(8/9) times less accurately (measured: x50 for c = 1e2, x2100 for c = 1e4), while RK45 (correct norm)
+    is not affected.  Recognised by exactly that: order 8, c >= 100, accuracy loss >= c^0.5 relative to the unscaled
+    twin on the same output grid, RK45 twin unchanged within a factor 5."""
+    if order != 8 or c < 100:
+        return None
+    growth = ratio_scaled / max(ratio_base, 1e-3)
+    twin = rk45_scaled / max(rk45_base, 1e-3)
+    return MECH_DOP_H if growth >= c ** 0.5 and twin <= 5.0 else None
+
+
+def m4_timescale(ctx, env, n_base, scales, tols):
+    """The quantifier of the property includes the time unit: the same closed-form problem with all rates multiplied by
+    c (span divided by c) has the same solution values, hence the same bound K*tol*kappa."""
+    from hiten.algorithms.integrators.rk import AdaptiveRK
+    rng = ctx.rng
+    makers = [lambda: ef.make_linrot(rng, n=3, damped=True), lambda: ef.make_forced(rng, n=2),
+              lambda: ef.make_logistic(rng), lambda: ef.make_linrot(rng, n=2), lambda: ef.make_forced(rng, n=3),
+              lambda: ef.make_linrot(rng, n=4, time_dependent=True)]
+    for ib in range(n_base):
+        if not ctx.mine(ib):
+            continue
+        P = makers[ib % len(makers)]()
+        kap, acc = P.kappa(), P.accuracy()
+        scale = 1.0 + float(np.max(np.abs(P.exact(np.linspace(P.t0, P.t0 + P.T, 65)))))
+        dil = float(np.sqrt(P.dim / P.n))
+
+        def measure(R, order, tol):
+            nst, e_yard = _yardstick(R, order, tol)
+            out = {}
+            for gname, tg in _grids(rng, R.t0, R.T, nst, ["endpoint", "fine"]):
+                sol = AdaptiveRK(order=order, rtol=tol, atol=tol).integrate(env.system(R.dim), R.y0, tg.copy())
+                st = np.asarray(sol.states)
+                e = float(np.max(np.abs(st[:, :R.n] - R.exact(tg))))
+                dense = gname != "endpoint"
+                bound = (K_ADAPTIVE if dense else K_NODE) * tol * kap * scale * dil + 10 * acc + (DENSE_ALLOW * e_yard if dense else 0.0)
+                out[gname] = (e, bound, max(e - 10 * acc, 0.0) / (tol * kap * scale * dil), np.array_equal(st[0], R.y0))
+            return out
+        for tol in tols:
+            base = {order: measure(P, order, tol) for order in (5, 8)}
+            for c in scales:
+                R = P.rescaled(c)
+                got = {order: measure(R, order, tol) for order in (5, 8)}
+                for order in (5, 8):
+                    for gname in ("endpoint", "fine"):
+                        e, bound, ratio, first_ok = got[order][gname]
+                        ctx.case(f"M4b:adaptive{order}:time unit x{c:g}", [P.key(), c, order, tol, gname], nontrivial=True)
+                        ctx.stat(f"M4b error/bound [adaptive{order}, time unit x{c:g}]", e / bound)
+                        mech = classify_timescale(order, c, got[8][gname][2], base[8][gname][2], got[5][gname][2], base[5][gname][2])
+                        ctx.check(e <= bound, "M4b:error <= K*tol*kappa for the same problem in every time unit",
+                                  lambda: {"problem": R.describe(), "time_unit_factor": c, "order": order, "tol": tol, "grid": gname,
+                                           "max_error": e, "bound": bound, "error_over_tol_kappa": ratio,
+                                           "same_problem_unscaled_error_over_tol_kappa": base[order][gname][2],
+                                           "rk45_error_over_tol_kappa": got[5][gname][2],
+                                           "rk45_unscaled_error_over_tol_kappa": base[5][gname][2], "kappa": kap},
+                                  mech)
+                        ctx.check(first_ok, "M4:first sample equals y0 bit for bit", {"problem": R.describe(), "order": order})
 
 
 # ======================================================================================= M5 System.propagate
@@ -845,6 +950,7 @@ def m5_cr3bp(ctx, n_cases):
             if it < 2:
                 ctx.sample({"monitor": "M5", "mu": mu, "y0": y0, "tf": tf, "order": p, "steps": [NCHK * m for m in ms],
                             "errors": errs, "conclusive_rates": rates, "kappa": kap})
+            _reaches_window(ctx, f"System.propagate fixed{p}", p, {"mu": mu, "y0": y0, "tf": tf}, tf, rate, ms, errs)
             if r is None:
                 ctx.skip(f"M5 fixed{p}: case without two stable conclusive rates")
                 continue
@@ -897,9 +1003,9 @@ def run(ctx):
     guarded(ctx, "interpose", env.count_calls)
     if ctx.mine(0):
         guarded(ctx, "M1", m1_tableaux, ctx)
-    guarded(ctx, "M2", m2_stepping, ctx, env, ctx.pick(40, 160))
+    guarded(ctx, "M2", m2_stepping, ctx, env, ctx.pick(40, 400))
 
-    nrep = ctx.pick(1, 2 * ctx.nshards)
+    nrep = ctx.pick(1, 5 * ctx.nshards)
     tols = ctx.pick([1e-6, 1e-8, 1e-10], [1e-6, 1e-7, 1e-8, 1e-9, 1e-10, 1e-11, 1e-12])
     for rep in range(nrep):
         if not ctx.mine(rep):
@@ -913,7 +1019,9 @@ def run(ctx):
         guarded(ctx, "hamiltonian setup", build_hams)
         guarded(ctx, "M3", m3_order, ctx, env, probs, hams)
         guarded(ctx, "M4", m4_adaptive, ctx, env, probs, hams, tols)
-    guarded(ctx, "M5", m5_cr3bp, ctx, ctx.pick(4, 5 * ctx.nshards))
+    guarded(ctx, "M4b", m4_timescale, ctx, env, ctx.pick(3, 6 * ctx.nshards), ctx.pick([1e-2, 1e2, 1e4], [1e-4, 1e-2, 1e1, 1e2, 1e3, 1e4, 1e6]),
+            ctx.pick([1e-7, 1e-10], [1e-6, 1e-8, 1e-10, 1e-12]))
+    guarded(ctx, "M5", m5_cr3bp, ctx, ctx.pick(4, 8 * ctx.nshards))
     ctx.note("kernel_calls", dict(env.calls))
 
     one = ctx.nshards == 1
@@ -927,7 +1035,8 @@ def run(ctx):
     ctx.require("M2:dop853_step_jit_kernel == longdouble model (state, err5, err3)", 10 if one else 1)
     ctx.require("M3:median conclusive convergence rate >= p - 0.25", 9)
     ctx.require("M4:error at every requested time <= K*tol*kappa (dense output included)", 300)
-    ctx.require("M4:error(tol/100) <= max(error(tol)/4, dense-output yardstick)", 10)
+    ctx.require("M4:error shrinks with the tolerance (log-log slope >= 0.3 over >= 4 decades)", 10)
     ctx.require("M4:first sample equals y0 bit for bit", 300)
+    ctx.require("M4b:error <= K*tol*kappa for the same problem in every time unit", 40)
     ctx.require("M5:System.propagate(method='fixed', order=p) converges with median rate >= p - 0.5", 2)
     ctx.require("M5:System.propagate(method='adaptive') error <= K*tol*kappa", 6)
